@@ -40,10 +40,20 @@ Fixpoint dec_outs (l : list (list N)) : option (list out) :=
 Record ncase := {
   nc_ops : list op;
   nc_tokio : list (list N);     (* zlink_tokio::notified, one result per operation *)
-  nc_smol : list (list N)       (* zlink_smol::notified *)
+  nc_smol : list (list N);      (* zlink_smol::notified *)
+  (* per operation: the subscribers whose waker was woken while it ran (ascending), and
+     once_id when the one-shot stream's waker was *)
+  nc_tokio_w : list (list N);
+  nc_smol_w : list (list N)
 }.
+Definition once_id : N := 1000000%N.
 
 Definition model_outs (I : impl) (c : ncase) : list (list N) := map enc_out (run I (nc_ops c)).
+Definition model_wakes (I : impl) (c : ncase) : list (list N) :=
+  map (map N.of_nat) (wakes I (nc_ops c)).
+(* the implementation's wakes of subscriber streams (the models do not cover the one-shot's) *)
+Definition sub_wakes (w : list (list N)) : list (list N) :=
+  map (filter (fun x => negb (x =? once_id)%N)) w.
 
 (* ---------------------------------------------------------------- the property, executable *)
 
@@ -100,6 +110,69 @@ Definition state_okb (tr : list ev) : bool :=
   forallb (event_ok tr) (seq 0 (length tr)) &&
   forallb (fun s => sublistb (received s tr) (sets_after s tr)) (seq 0 (length tr)).
 
+(* ---------------------------------------------------------------- the wake-up obligation, on
+   the implementation's own history: a subscriber whose last poll returned Pending is owed a
+   wake-up; by the time the first operation after that which gives it something to receive — a
+   set that went through, or the drop of the last handle — returns, its waker must have been
+   woken (by that operation or, spuriously, before it).  The same for the one-shot stream and
+   notify / drop of the notifier.  (Further wakes are allowed.) *)
+Definition memN (x : N) (l : list N) : bool := existsb (fun y => (x =? y)%N) l.
+Definition subsetN (a b : list N) : bool := forallb (fun x => memN x b) a.
+Definition removeN (x : N) (l : list N) : list N := filter (fun y => negb (x =? y)%N) l.
+
+Fixpoint wake_scan (tr : list ev) (i : nat) (rest : list ev) (ws : list (list N))
+                   (reg : list N) (reg_once : bool) : bool :=
+  match rest, ws with
+  | [], _ => true
+  | _ :: _, [] => false
+  | e :: rest', w :: ws' =>
+      let waking :=
+        match e with
+        | (Set_ _ _, OSet _) => true
+        | (DropH _, ODone) => negb (any_handle (firstn (S i) tr))
+        | _ => false
+        end in
+      let once_waking :=
+        match e with (Notify _, ODone) | (DropNotifier, ODone) => true | _ => false end in
+      (if waking then subsetN reg w else true) &&
+      (if once_waking && reg_once then memN once_id w else true) &&
+      (* a stream that was woken (for whatever reason) is polled again by its task: it is no
+         longer owed a wake-up until it has returned Pending again *)
+      let reg1 := if waking then [] else filter (fun x => negb (memN x w)) reg in
+      let reg2 :=
+        match e with
+        | (Poll s, OPending) => N.of_nat s :: removeN (N.of_nat s) reg1
+        | (Poll s, _) => removeN (N.of_nat s) reg1
+        | (DropSub s, ODone) => removeN (N.of_nat s) reg1
+        | _ => reg1
+        end in
+      let ro :=
+        match e with
+        | (PollOnce, OPending) => true
+        | (PollOnce, _) => false
+        | _ => if once_waking then false else reg_once
+        end in
+      wake_scan tr (S i) rest' ws' reg2 ro
+  end.
+Definition wake_okb (tr : list ev) (ws : list (list N)) : bool := wake_scan tr 0 tr ws [] false.
+
+(* The implementation's wake-ups against the model's.  tokio: equal.  smol: event-listener
+   forwards a notification when a listener that was notified but not polled since is dropped
+   (drop of a stream), which wakes one further registered stream early.  Such an early wake-up
+   can only come with a DropSub; the woken stream is then not woken again by the notification the
+   model expects.  `early` = streams woken since their last poll. *)
+Fixpoint smol_wakes_scan (ops : list op) (mw iw : list (list N)) (early : list N) : bool :=
+  match ops, mw, iw with
+  | [], [], [] => true
+  | o :: ops', m :: mw', w :: iw' =>
+      subsetN (filter (fun x => negb (memN x early)) m) w &&
+      (match o with DropSub _ => true | _ => subsetN w m end) &&
+      let early1 := w ++ early in
+      let early2 := match o with Poll s => removeN (N.of_nat s) early1 | _ => early1 end in
+      smol_wakes_scan ops' mw' iw' early2
+  | _, _, _ => false
+  end.
+
 Definition out_eqb (a b : out) : bool := list_eqb N.eqb (enc_out a) (enc_out b).
 
 Definition spec_okb (ops : list op) (outs : list (list N)) : bool :=
@@ -110,22 +183,35 @@ Definition spec_okb (ops : list op) (outs : list (list N)) : bool :=
       let tr := combine ops os in
       state_okb tr && list_eqb out_eqb (once_outs tr) (once_expect ops)
   end.
+Definition wakespec_okb (ops : list op) (outs ws : list (list N)) : bool :=
+  match dec_outs outs with
+  | None => false
+  | Some os => wake_okb (combine ops os) ws
+  end.
 
 (* 0 = both implementations agree with their models and satisfy the property.
    bit 0 (1)  some implementation differs from its model      bit 2 (4)  tokio differs from its model
    bit 1 (2)  the property is violated                        bit 3 (8)  smol differs from its model
    bit 4 (16) tokio's history violates the property           bit 5 (32) smol's history violates it
-   bit 6 (64) the two crates differ from each other *)
+   bit 6 (64) the two crates differ from each other (results)
+   bit 7 (128) tokio's wakes differ from its model            bit 8 (256) smol's wakes differ
+   bit 9 (512) tokio misses a wake-up it owes                 bit 10 (1024) smol misses one *)
 Definition check (c : ncase) : N :=
   let mt := negb (nn_eqb (model_outs tokio_impl c) (nc_tokio c)) in
   let ms := negb (nn_eqb (model_outs smol_impl c) (nc_smol c)) in
   let st := negb (spec_okb (nc_ops c) (nc_tokio c)) in
   let ss := negb (spec_okb (nc_ops c) (nc_smol c)) in
   let df := negb (nn_eqb (nc_tokio c) (nc_smol c)) in
-  ((if mt || ms then 1 else 0) + (if st || ss || df then 2 else 0) +
+  let wt := negb (nn_eqb (model_wakes tokio_impl c) (sub_wakes (nc_tokio_w c))) in
+  let ws := negb (smol_wakes_scan (nc_ops c) (model_wakes smol_impl c) (sub_wakes (nc_smol_w c)) []) in
+  let ct := negb (wakespec_okb (nc_ops c) (nc_tokio c) (nc_tokio_w c)) in
+  let cs := negb (wakespec_okb (nc_ops c) (nc_smol c) (nc_smol_w c)) in
+  ((if mt || ms || wt || ws then 1 else 0) + (if st || ss || df || ct || cs then 2 else 0) +
    (if mt then 4 else 0) + (if ms then 8 else 0) + (if st then 16 else 0) +
-   (if ss then 32 else 0) + (if df then 64 else 0))%N.
+   (if ss then 32 else 0) + (if df then 64 else 0) + (if wt then 128 else 0) +
+   (if ws then 256 else 0) + (if ct then 512 else 0) + (if cs then 1024 else 0))%N.
 
 (* for replay files *)
 Definition show (c : ncase) :=
-  (model_outs tokio_impl c, model_outs smol_impl c, map enc_out (run abs_impl (nc_ops c))).
+  (model_outs tokio_impl c, model_outs smol_impl c, map enc_out (run abs_impl (nc_ops c)),
+   model_wakes abs_impl c).
